@@ -4,7 +4,7 @@
 // contains comments only; it is compiled only with the "verif" build tag.
 package gtab
 
-//@ func (info *Info) FindLookups(lang language.Tag, includeFeature map[string]bool) (ll []LookupIndex)   props: C15 C02
+//@ func (info *Info) FindLookups(lang language.Tag, includeFeature map[string]bool) (ll []LookupIndex)   props: C15 C02 C16
 //@   requires info != nil ==> len(info.FeatureList) <= 65535 && len(info.LookupList) <= 65535 && forall k int :: 0 <= k && k < len(info.FeatureList) ==> info.FeatureList[k] != nil
 //@   ensures forall i int :: 0 <= i && i < len(ll) ==> ll[i] < len(info.LookupList)
 //@   modifies nothing
@@ -30,7 +30,7 @@ package gtab
 //@ spec keepMark(k *keepFunc, gid uint16) bool = ite(k.Meta.LookupFlags&8 != 0, false, ite(k.Meta.LookupFlags&16 != 0, inMarkSet(k, gid), ite(k.Meta.LookupFlags&65280 != 0, attachOK(k, gid), true)))
 //@ spec keepSpec(k *keepFunc, gid uint16) bool = ite(k.Gdef.GlyphClass[gid] == 1, k.Meta.LookupFlags&2 == 0, ite(k.Gdef.GlyphClass[gid] == 2, k.Meta.LookupFlags&4 == 0, ite(k.Gdef.GlyphClass[gid] == 3, keepMark(k, gid), true)))
 
-//@ func (k *keepFunc) Keep(gid glyph.ID) (keep bool)   props: C06 C07
+//@ func (k *keepFunc) Keep(gid glyph.ID) (keep bool)   props: C06 C07 C16
 //@   requires k != nil ==> k.Meta != nil && k.Gdef != nil
 //@   ensures k == nil ==> keep
 //@   ensures k != nil ==> keep == keepSpec(k, gid)
@@ -95,7 +95,7 @@ package gtab
 // Apply: terminates for every behaviour of the subtables (the progress guard),
 // never indexes out of range, and leaves no pending actions behind, so the
 // next call starts from the same state as a fresh context.
-//@ func (ctx *Context) Apply(seq []glyph.Info) (res []glyph.Info)   props: C07
+//@ func (ctx *Context) Apply(seq []glyph.Info) (res []glyph.Info)   props: C07 C16
 //@   requires ctx != nil && llOK(ctx) && len(ctx.stack) == 0
 //@   ensures len(ctx.stack) == 0 && llOK(ctx) && ctx.ll == old(ctx.ll) && ctx.lookups == old(ctx.lookups) && ctx.gdef == old(ctx.gdef)
 //@   modifies ctx.seq, ctx.stack, ctx.scratch, ctx.lookup, ctx.keep, all(nested), all(glyph.Info), allelems(int), allelems(*nested), allelems(rune), allelems(SeqLookup)
